@@ -96,9 +96,18 @@ def runWf (name : String) : String :=
     let v := violations p
     if v.isEmpty then "wf" else String.intercalate " " (v.map Violation.show)
 
+/-- a full-pipeline line: after the deadline and the grace period nothing of the pipeline is left and
+    the channels handed to the caller are closed — that is what the general theorems give when the
+    regenerated IR has no violation of W0–W5 (`pipeline_terminates_and_never_crashes`) -/
+def runFull (m : List (String × String)) : String :=
+  match Gen.Pipes.all.find? (·.name == look m "p") with
+  | none => "error unknown-pipeline"
+  | some p => if (violations p).all (fun v => decide (6 ≤ v.rule)) then "clean" else "dirty"
+
 def step (line : String) : String :=
   match words line with
   | "sc" :: rest => runScenario (kvs rest)
+  | "full" :: rest => runFull (kvs rest)
   | ["wf", name] => runWf name
   | _ => "error bad-line"
 
